@@ -22,6 +22,7 @@ class Conn(object):
         self.sent_raw = bytearray()  # every byte written to the socket
         self.answered = set()
         self.tail_on_eof = None      # bytes to write when the client half-closes (the rest of a frame that was on its way)
+        self.close_delay = 0         # seconds this side waits after the client's half-close before it closes too (a slow peer)
         self.seen = 0
         self.lock = threading.Lock()
 
@@ -96,6 +97,8 @@ class LoopServer(threading.Thread):
                 # the client half-closed (or closed): a real server closes its side as well
                 c.closed_by_peer = True
                 try:
+                    if c.close_delay:
+                        time.sleep(c.close_delay)
                     if c.tail_on_eof:
                         try:
                             c.sock.sendall(c.tail_on_eof)     # what was already on its way when the client hung up
